@@ -44,7 +44,7 @@ def gen_cases(tier, seed):
 
 def required(tier):
     return {"sec1.rt": 150, "sec1.cand": 3000, "sec1.cand.accept": 100, "sec1.class.len65_prefix02": 50, "sec1.class.offcurve": 50,
-            "sec1.class.x_ge_p": 50, "sec1.class.hybrid": 50, "sec1.class.coord_plus_p": 100, "wif.rt": 140, "wif.corrupt": 500, "wif.unknown_version": 100,
+            "sec1.class.x_ge_p": 50, "sec1.class.hybrid": 50, "sec1.class.coord_plus_p": 100, "sec1.class.offcurve_pseudo_root": 50, "wif.rt": 140, "wif.corrupt": 500, "wif.unknown_version": 100,
             "wif.badkey_refused": 10, "pem.priv": 32, "pem.priv.ossl_reads": 32, "pem.priv.lib_reads_ossl": 32, "pem.pub": 100,
             "pem.pub.ossl_reads": 100, "pem.pub.lib_reads_ossl": 100}
 
@@ -142,6 +142,12 @@ def run_case(kind, params, ctx):
             cands.append(("coord_plus_p", b"\x02" + (sx + P).to_bytes(32, "big")))
             cands.append(("coord_plus_p", b"\x03" + (sx + P).to_bytes(32, "big")))
             cands.append(("valid_small_x", b"\x04" + sx.to_bytes(32, "big") + spt[1].to_bytes(32, "big")))
+        # off-curve x together with the "pseudo root" (c^((p+1)/4) for a non-residue c): what a decoder that trusts
+        # its own square-root routine without squaring back would accept
+        cnr = (x * x * x + 7) % P
+        pr = pow(cnr, (P + 1) // 4, P)
+        for yy in (pr, P - pr):
+            cands.append(("offcurve_pseudo_root", b"\x04" + x.to_bytes(32, "big") + yy.to_bytes(32, "big")))
         for _ in range(30):
             ln = rng.choice([33, 65, 33, 65, rng.randrange(0, 71)])
             b = rand_bytes(rng, ln)
